@@ -12,17 +12,22 @@ import (
 type rng struct{ lo, hi uint64 }
 
 type facts struct {
-	parent *facts
-	depth  int
-	r      map[int]rng // unsigned bounds by term id set at this level (already intersected with the ancestors')
-	terms  map[int]*term.Term
-	memo   map[int]rng
-	bm     map[int]int8
-	vals   map[int][]uint64 // exact finite value sets by term id (from equalities and disjunctions of equalities)
-	empty  bool             // some term's range became empty: the guard is unsatisfiable
-	check  int8             // 0 = not yet checked, 1 = consistent, 2 = inconsistent
-	conj   []*term.Term     // all conjuncts covered by this chain (sorted by id)
-	sb     map[int]sbound   // signed bounds by term id (combined along the chain)
+	parent   *facts
+	depth    int
+	r        map[int]rng // unsigned bounds by term id set at this level (already intersected with the ancestors')
+	terms    map[int]*term.Term
+	memo     map[int]rng
+	bm       map[int]int8
+	vals     map[int][]uint64 // exact finite value sets by term id (from equalities and disjunctions of equalities)
+	empty    bool             // some term's range became empty: the guard is unsatisfiable
+	check    int8             // 0 = not yet checked, 1 = consistent, 2 = inconsistent
+	conj     []*term.Term     // all conjuncts covered by this chain (sorted by id)
+	sb       map[int]sbound   // signed bounds by term id (combined along the chain)
+	smemo    map[int]*srng
+	sub      map[int]*facts
+	nsub     int // contexts created below this object (capped)
+	ctx      int // nesting depth of under()
+	inSigned bool
 }
 
 type sbound struct {
@@ -409,6 +414,7 @@ func newFacts(parent *facts, conj []*term.Term, all []*term.Term) *facts {
 	// ranges computed while the facts were still being gathered may be stale
 	f.memo = map[int]rng{}
 	f.bm = map[int]int8{}
+	f.smemo = nil
 	return f
 }
 
@@ -661,6 +667,22 @@ func (f *facts) decide(t *term.Term) int8 {
 		if t.Args[0].W() > 64 {
 			break
 		}
+		if t.Op == term.OSlt || t.Op == term.OSle {
+			sa, oka := f.srangeOf(t.Args[0])
+			sb2, okb := f.srangeOf(t.Args[1])
+			if oka && okb {
+				strict := t.Op == term.OSlt
+				switch {
+				case strict && sa.hi < sb2.lo, !strict && sa.hi <= sb2.lo:
+					r = 1
+				case strict && sa.lo >= sb2.hi, !strict && sa.lo > sb2.hi:
+					r = 0
+				}
+				if r >= 0 {
+					break
+				}
+			}
+		}
 		a, b := f.rangeOf(t.Args[0]), f.rangeOf(t.Args[1])
 		w := t.Args[0].W()
 		if t.Op == term.OSlt || t.Op == term.OSle {
@@ -745,4 +767,255 @@ func (f *facts) decide(t *term.Term) int8 {
 	}
 	f.bm[t.ID] = r
 	return r
+}
+
+// ---------- signed ranges ----------
+
+// under returns the facts that hold when cond is assumed on top of f: cond's own conjuncts, and, for every
+// two-way disjunction in the guard one of whose sides cond refutes, the other side (unit resolution). This is what
+// a value merged as ite(c, x, y) needs: y's bounds were established on the ¬c path only.
+func (f *facts) under(cond *term.Term) *facts {
+	if f.depth > 60 || f.ctx >= 2 {
+		return f
+	}
+	if f.sub == nil {
+		f.sub = map[int]*facts{}
+	}
+	if g, ok := f.sub[cond.ID]; ok {
+		return g
+	}
+	var extra []*term.Term
+	add := func(t *term.Term) {
+		if t.Op == term.OAnd {
+			extra = append(extra, t.Args...)
+		} else {
+			extra = append(extra, t)
+		}
+	}
+	add(cond)
+	refuted := map[int]bool{}
+	for _, c := range extra {
+		refuted[term.Not(c).ID] = true
+	}
+	for _, c := range f.conj {
+		if c.Op != term.OOr || len(c.Args) != 2 {
+			continue
+		}
+		switch {
+		case refuted[c.Args[0].ID]:
+			add(c.Args[1])
+		case refuted[c.Args[1].ID]:
+			add(c.Args[0])
+		}
+	}
+	g := newFacts(f, extra, f.conj)
+	g.ctx = f.ctx + 1
+	f.nsub++
+	f.sub[cond.ID] = g
+	return g
+}
+
+type srng struct{ lo, hi int64 }
+
+func fitsSigned(v int64, w int) bool {
+	if w >= 64 {
+		return true
+	}
+	lim := int64(1) << uint(w-1)
+	return v >= -lim && v < lim
+}
+
+func addOv(a, b int64) (int64, bool) {
+	c := a + b
+	if (c > a) == (b > 0) || b == 0 {
+		return c, true
+	}
+	return 0, false
+}
+
+func mulOv(a, b int64) (int64, bool) {
+	if a == 0 || b == 0 {
+		return 0, true
+	}
+	c := a * b
+	if c/b != a || (a == -1 && b == -1<<63) || (b == -1 && a == -1<<63) {
+		return 0, false
+	}
+	return c, true
+}
+
+// srangeOf bounds t interpreted as a signed w-bit integer; ok=false when nothing useful is known.
+func (f *facts) srangeOf(t *term.Term) (srng, bool) {
+	if t.Sort.K != term.KBV || t.W() > 64 || t.W() < 2 {
+		return srng{}, false
+	}
+	if t.IsConst() {
+		v := t.SVal()
+		return srng{v, v}, true
+	}
+	if f.smemo == nil {
+		f.smemo = map[int]*srng{}
+	}
+	if r, ok := f.smemo[t.ID]; ok {
+		if r == nil {
+			return srng{}, false
+		}
+		return *r, true
+	}
+	f.smemo[t.ID] = nil // cycle/depth guard
+	w := t.W()
+	var r srng
+	ok := false
+	arg := func(i int) (srng, bool) { return f.srangeOf(t.Args[i]) }
+	switch t.Op {
+	case term.OAdd, term.OSub:
+		a, oka := arg(0)
+		b, okb := arg(1)
+		if oka && okb {
+			if t.Op == term.OSub {
+				b = srng{-b.hi, -b.lo}
+				if b.lo == -1<<63 || b.hi == -1<<63 {
+					break
+				}
+			}
+			lo, o1 := addOv(a.lo, b.lo)
+			hi, o2 := addOv(a.hi, b.hi)
+			if o1 && o2 && fitsSigned(lo, w) && fitsSigned(hi, w) {
+				r, ok = srng{lo, hi}, true
+			}
+		}
+	case term.OMul:
+		a, oka := arg(0)
+		b, okb := arg(1)
+		if oka && okb {
+			vals := [4]int64{}
+			good := true
+			for i, p := range [4][2]int64{{a.lo, b.lo}, {a.lo, b.hi}, {a.hi, b.lo}, {a.hi, b.hi}} {
+				v, o := mulOv(p[0], p[1])
+				if !o || !fitsSigned(v, w) {
+					good = false
+				}
+				vals[i] = v
+			}
+			if good {
+				lo, hi := vals[0], vals[0]
+				for _, v := range vals[1:] {
+					if v < lo {
+						lo = v
+					}
+					if v > hi {
+						hi = v
+					}
+				}
+				r, ok = srng{lo, hi}, true
+			}
+		}
+	case term.ONeg:
+		if a, oka := arg(0); oka && a.lo != -1<<63 && fitsSigned(-a.lo, w) && fitsSigned(-a.hi, w) {
+			r, ok = srng{-a.hi, -a.lo}, true
+		}
+	case term.OSDiv:
+		a, oka := arg(0)
+		if b := t.Args[1]; oka && b.IsConst() && b.SVal() > 0 {
+			c := b.SVal()
+			r, ok = srng{a.lo / c, a.hi / c}, true
+		}
+	case term.OSRem:
+		a, oka := arg(0)
+		if b := t.Args[1]; b.IsConst() && b.SVal() > 0 {
+			c := b.SVal()
+			switch {
+			case oka && a.lo >= 0 && a.hi < c:
+				r, ok = a, true
+			case oka && a.lo >= 0:
+				r, ok = srng{0, c - 1}, true
+			default:
+				r, ok = srng{-(c - 1), c - 1}, true
+			}
+		}
+	case term.OUDiv, term.OURem:
+		a, oka := arg(0)
+		if b := t.Args[1]; oka && a.lo >= 0 && b.IsConst() && b.SVal() > 0 {
+			c := b.SVal()
+			if t.Op == term.OUDiv {
+				r, ok = srng{a.lo / c, a.hi / c}, true
+			} else if a.hi < c {
+				r, ok = a, true
+			} else {
+				r, ok = srng{0, c - 1}, true
+			}
+		}
+	case term.OIte:
+		switch f.decide(t.Args[0]) {
+		case 1:
+			r, ok = arg(1)
+		case 0:
+			r, ok = arg(2)
+		default:
+			// each arm is bounded under the branch condition it is selected by
+			a, oka := arg(1)
+			b, okb := arg(2)
+			if !oka && f.nsub < 8 {
+				a, oka = f.under(t.Args[0]).srangeOf(t.Args[1])
+			}
+			if !okb && f.nsub < 8 {
+				b, okb = f.under(term.Not(t.Args[0])).srangeOf(t.Args[2])
+			}
+			if oka && okb {
+				r, ok = a, true
+				if b.lo < r.lo {
+					r.lo = b.lo
+				}
+				if b.hi > r.hi {
+					r.hi = b.hi
+				}
+			}
+		}
+	case term.OSext:
+		r, ok = arg(0)
+	case term.OZext:
+		if t.Args[0].W() <= 63 {
+			u := f.rangeOf(t.Args[0])
+			r, ok = srng{int64(u.lo), int64(u.hi)}, true
+		}
+	case term.OExtract:
+		if t.B == 0 {
+			if a, oka := arg(0); oka && fitsSigned(a.lo, w) && fitsSigned(a.hi, w) {
+				r, ok = a, true
+			}
+		}
+	}
+	// facts: explicit signed bounds, and unsigned ranges that stay below the sign bit
+	if s, has := f.getS(t.ID); has {
+		if !ok {
+			lim := int64(1)<<uint(w-1) - 1
+			if w >= 64 {
+				lim = 1<<63 - 1
+			}
+			r, ok = srng{-lim - 1, lim}, true
+		}
+		if s.lo > r.lo {
+			r.lo = s.lo
+		}
+		if s.hi < r.hi {
+			r.hi = s.hi
+		}
+	}
+	if u, has := f.getR(t.ID); has && u.hi < uint64(1)<<uint(w-1) {
+		if !ok {
+			r, ok = srng{int64(u.lo), int64(u.hi)}, true
+		} else {
+			if int64(u.lo) > r.lo {
+				r.lo = int64(u.lo)
+			}
+			if int64(u.hi) < r.hi {
+				r.hi = int64(u.hi)
+			}
+		}
+	}
+	if ok {
+		rr := r
+		f.smemo[t.ID] = &rr
+	}
+	return r, ok
 }
